@@ -32,8 +32,8 @@ TOLERANCES = {
 }
 ASSUMPTIONS = ["balances act on row vectors: x -> x @ A + b (apply_balance)", "a later stage is fitted on the swatches pre-balanced by the accumulated balance (AdaptiveBalance.find_balance)"]
 FLOORS = {
-    "quick": {"contract:residual_not_increased": 500, "exact_map_recovered": 150, "accumulated_equals_sequential": 140, "contract:stage_fit_logged": 500, "correction_recovers_reference_swatches": 20},
-    "thorough": {"contract:residual_not_increased": 5000, "exact_map_recovered": 1500, "accumulated_equals_sequential": 1400, "contract:stage_fit_logged": 5000, "correction_recovers_reference_swatches": 200},
+    "quick": {"contract:residual_not_increased": 500, "exact_map_recovered": 150, "accumulated_equals_sequential": 140, "contract:stage_fit_logged": 500, "correction_recovers_reference_swatches": 20, "integer_source_swatches": 15, "staged_after_reset": 100},
+    "thorough": {"contract:residual_not_increased": 5000, "exact_map_recovered": 1500, "accumulated_equals_sequential": 1400, "contract:stage_fit_logged": 5000, "correction_recovers_reference_swatches": 200, "integer_source_swatches": 150, "staged_after_reset": 1000},
 }
 SHARD_TIMEOUT = {"quick": 1500, "thorough": 6000}
 MODES = ["diagonal", "linear", "affine"]
@@ -148,26 +148,37 @@ def run_shard(spec, R):
         layout = "4x6x3" if S.ndim == 3 else "Nx3"
         if it["kind"] == "single":
             A, b = gen_truth(rng, it["truth"])
-            dst = S @ A + b
+            int_src = it["round"] % 3 == 2 and it["cls"] != "AdaptiveBalance"
+            if int_src:
+                # integer-typed source swatches (8 bit), real-valued destinations in the same range
+                S = np.round(S * 255).astype(np.uint8)
+                b = 255 * b
+                layout += "/uint8"
+                R.count("integer_source_swatches")
+            unit = 255.0 if int_src else 1.0
+            dst = S.astype(float) @ A + b
             bal = getattr(darsia, it["cls"])() if hasattr(darsia, it["cls"]) else getattr(CB, it["cls"])()
             case = {"class": it["cls"], "truth": it["truth"], "layout": layout, "A": A.tolist(), "b": b.tolist()}
             ok, _ = R.guarded("find_balance", lambda: bal.find_balance(S, dst))
             if ok:
                 err = float(np.max(np.abs(bal.apply_balance(S) - dst)))
-                R.check(err <= 1e-5, "exact_map_recovered", lambda: {**case, "max_error": err}, group=it["cls"])
+                R.check(err <= 1e-5 * unit, "exact_map_recovered", lambda: {**case, "max_error": err}, group=it["cls"])
                 # __call__ path and the functional shortcuts give the same result on fresh objects
                 fresh = getattr(CB, it["cls"])()
                 ok2, out = R.guarded("call", lambda: fresh(S, S, dst))
                 if ok2:
-                    R.check(float(np.max(np.abs(out - dst))) <= 1e-5, "exact_map_recovered", {**case, "via": "__call__"}, group=it["cls"])
+                    R.check(float(np.max(np.abs(out - dst))) <= 1e-5 * unit, "exact_map_recovered", {**case, "via": "__call__"}, group=it["cls"])
                 # re-fit on a second exact data set from where the balance stands
                 S2 = gen_swatches(rng)
                 A2, b2 = gen_truth(rng, it["truth"])
-                dst2 = S2 @ A2 + b2
+                if int_src:
+                    S2 = np.round(S2 * 255).astype(np.uint8)
+                    b2 = 255 * b2
+                dst2 = S2.astype(float) @ A2 + b2
                 ok3, _ = R.guarded("find_balance", lambda: bal.find_balance(S2, dst2))
                 if ok3 and it["cls"] != "AdaptiveBalance":
                     err2 = float(np.max(np.abs(bal.apply_balance(S2) - dst2)))
-                    R.check(err2 <= 1e-5, "exact_map_recovered", lambda: {**case, "refit": True, "max_error": err2}, group=it["cls"])
+                    R.check(err2 <= 1e-5 * unit, "exact_map_recovered", lambda: {**case, "refit": True, "max_error": err2}, group=it["cls"])
             R.sig(["single", it["cls"], it["truth"], layout, it["round"]], True, cls=f"single/{it['cls']}/{it['truth']}")
             if it["id"] % 50 == 0:
                 R.sample(case)
@@ -219,6 +230,24 @@ def run_shard(spec, R):
             err = float(np.max(np.abs(bal.apply_balance(S) - dst)))
             R.check(err <= 1e-5, "exact_map_recovered", lambda: {**case, "max_error": err, "via": "staged"},
                     key="C12:adaptive_balance_composes_in_column_vector_order", group="/".join(seq))
+        if good_run:
+            # the same object after reset(): identity again, then stages without translation towards an exact
+            # diagonal / linear image of the sources
+            ok, _ = R.guarded("reset", lambda: bal.reset())
+            if ok:
+                R.check(np.array_equal(bal.apply_balance(X), X), "reset_is_identity", lambda: {**case, "max_difference": float(np.max(np.abs(bal.apply_balance(X) - X)))})
+                seq2 = [["diagonal"], ["linear"], ["diagonal", "linear"], ["linear", "diagonal"]][it["round"] % 4]
+                A2, b2 = gen_truth(rng, "diagonal" if seq2 == ["diagonal"] else "linear")
+                dst2 = S @ A2 + b2
+                ok2 = True
+                for mode in seq2:
+                    ok2, _ = R.guarded("find_balance", lambda: bal.find_balance(S, dst2, mode))
+                    if not ok2:
+                        break
+                if ok2:
+                    err = float(np.max(np.abs(bal.apply_balance(S) - dst2)))
+                    R.check(err <= 1e-5, "exact_map_recovered", lambda: {**case, "after_reset": seq2, "max_error": err, "via": "staged after reset"}, group="reset/" + "/".join(seq2))
+                R.count("staged_after_reset")
         R.sig(["staged", seq, layout, it["round"]], True, cls="staged/" + "/".join(seq))
         if it["id"] % 50 == 0:
             R.sample(case)
